@@ -180,6 +180,12 @@ func (rl *ReplicaLeader) sendData(wait usync.WaitCloser, req *pb.SyncRequest, st
 	defer wait2.Close(nil)
 
 	reader.Start(wait2)
+	// the input may have switched the channel to another run id since the id was checked, and
+	// NewReader does not look at the id : never stream another history than the one negotiated
+	if reader.RunId() != reqSp.RunId {
+		err = fmt.Errorf("channel run id changed : request(%s:%d), reader(%s)", reqSp.RunId, reqSp.Offset, reader.RunId())
+		return rl.handleError(stream, err, pb.SyncResponse_ERROR, "internal error", "")
+	}
 	ioReader := reader.IoReader()
 	offset := reqSp.Offset
 
